@@ -566,13 +566,125 @@ def rule_tfidf(ctx):
                     clo = y
             cps = set(b["local"] for p_ in (clo["params"] if clo else []) for b in pat_bindings(p_))
             df_ok = len(a) == 2 and any(z.get("k") == "Path" and z.get("local") in cps for z in walk(a[1]))
-            if n_ok and df_ok:
+            # where does the document frequency come from?  "over the transformed corpus": from what was counted for this
+            # call (a parameter), not from what the fitted vectoriser remembers of the training corpus
+            stored = None
+            if len(a) == 2:
+                for it, pat, body, node in for_loops(fn["body"]):
+                    if any(z is calls[0] for z in walk(body)):
+                        lb = set(b["local"] for b in pat_bindings(pat))
+                        if any(z.get("k") == "Path" and z.get("local") in lb for z in walk(a[1])) and any(z.get("k") == "Path" and z.get("name") == "self" for z in walk(it)):
+                            stored = r.e(it)[:60]
+                if clo is not None and stored is None:
+                    for y in walk(fn["body"]):
+                        if y.get("k") == "MethodCall" and y["args"] and any(strip(x) is clo for x in y["args"]) and any(z.get("k") == "Path" and z.get("name") == "self" for z in walk(y["recv"])) and df_ok:
+                            stored = r.e(y["recv"])[:60]
+            if stored:
+                res.violate("%s : idf-from-stored-frequencies" % key, "the document frequency handed to compute_idf is read from `%s` - what the fitted vectoriser remembers of the training corpus - not counted over the documents being transformed" % stored, fn_loc(fn, calls[0]["ln"]))
+            elif n_ok and df_ok:
                 res.ok()
             elif len(a) == 2 and any(z.get("k") == "Path" and z.get("local") in cps for z in walk(a[0])) and not df_ok:
                 res.violate("%s : idf-arguments-swapped" % key, "compute_idf(n, df) is called with the document frequency in the place of the document count", fn_loc(fn, calls[0]["ln"]))
             else:
                 res.undecided("%s : idf-arguments" % key, "the arguments of compute_idf were not recognised as (number of documents, document frequency) (fail closed)", fn_loc(fn, calls[0]["ln"]))
     return res.finish(2)
+
+
+def rule_views(ctx):
+    """`Column j always refers to vocabulary()[j]`: a fitted vectoriser holds the word -> column map and the column -> word
+    list.  They agree by construction when the list is produced from that very map by the one function that also renumbers
+    the map's columns (hashmap_to_vocabulary); a list taken from anywhere else (the caller's word list, which may repeat a
+    word) is a second numbering."""
+    res = RuleResult("R-C17-views", "every constructor of a fitted count vectoriser derives the column -> word list from the word -> column map it stores (through hashmap_to_vocabulary)")
+    F = ctx.facts()
+    n = 0
+    for fn in F.all_fns():
+        if fn["d"]["krate"] != CRATE or fn.get("exp") or "tests" in fn["d"]["path"]:
+            continue
+        c = fn["crate"]
+        r = Render(c)
+        for lit in walk(fn["body"]):
+            if lit.get("k") != "Struct" or not lit.get("fields"):
+                continue
+            fs = {f_["name"]: f_["e"] for f_ in lit["fields"]}
+            if "vocabulary" not in fs or "vec_vocabulary" not in fs:
+                continue
+            n += 1
+            key = fn_key(fn)
+            res.instance("%s : vocabulary views" % key)
+            inits = {}
+            for y in walk(fn["body"]):
+                if y.get("k") == "LetStmt" and y.get("init") is not None and y["pat"].get("k") == "Bind":
+                    inits[y["pat"]["local"]] = y["init"]
+            m_loc = peel_refs(fs["vocabulary"]).get("local")
+            v = peel_refs(fs["vec_vocabulary"])
+            if v.get("k") == "Path" and v.get("local") in inits:
+                v = peel_refs(inits[v["local"]])
+            if lit.get("base") is not None:
+                res.ok()
+                continue
+            if v.get("k") == "Call" and strip(v["f"]).get("k") == "Path" and (c.dfn(strip(v["f"]).get("def")) or {}).get("name") == "hashmap_to_vocabulary" and v["args"]:
+                if m_loc is not None and peel_refs(v["args"][0]).get("local") == m_loc:
+                    res.ok()
+                else:
+                    res.violate("%s : views-from-different-maps" % key, "the word list is derived from `%s`, the stored map is another value" % r.e(v["args"][0])[:30], fn_loc(fn, lit.get("ln")))
+            elif any(z.get("k") == "Path" and z.get("local") == m_loc for z in walk(v)) and m_loc is not None:
+                res.undecided("%s : views-derivation" % key, "the word list is derived from the map by `%s`, not by hashmap_to_vocabulary (fail closed)" % r.e(v)[:50], fn_loc(fn, lit.get("ln")))
+            else:
+                res.violate("%s : views-built-from-different-sources" % key, "the column -> word list is `%s`: it is not derived from the word -> column map that is stored next to it, so `vocabulary()[j]` need not be the word that is counted in column j (a repeated word in a fixed vocabulary shifts every later entry)" % r.e(v)[:60], fn_loc(fn, lit.get("ln")))
+    if n < 3:
+        res.missing_anchor("constructors of CountVectorizer (found %d)" % n)
+    return res.finish(3)
+
+
+def rule_ngrams(ctx):
+    """The n-grams that start at one word are that word, that word plus the next, plus the next two, ...: every item extends
+    the *previous* item by one word.  An item built from a fixed earlier item (the shortest one) plus the current word skips
+    the words in between as soon as the range spans more than two lengths."""
+    res = RuleResult("R-C17-ngrams", "in NGramList::ngram_items every longer n-gram extends the previous one (a buffer carried from iteration to iteration), not a fixed earlier item")
+    F = ctx.facts()
+    fns = [f for f in F.all_fns() if f["d"]["krate"] == CRATE and f["d"]["name"] == "ngram_items"]
+    if not fns:
+        res.missing_anchor("NGramList::ngram_items")
+    for fn in fns:
+        c = fn["crate"]
+        r = Render(c)
+        key = fn_key(fn)
+        loops = list(for_loops(fn["body"]))
+        found = 0
+        for it, pat, body, node in loops:
+            pushes = [y for y in walk(body) if y.get("k") == "MethodCall" and y["name"] == "push" and y["args"] and "Vec<" in (c.ty(peel_refs(y["recv"]).get("t")) or c.ty(peel_refs(y["recv"]).get("at")) or "")]
+            if not pushes:
+                continue
+            found += 1
+            res.instance("%s : items pushed in the loop at line %s" % (key, node.get("ln")))
+            inner = {}
+            for y in walk(body):
+                if y.get("k") == "LetStmt" and y["pat"].get("k") == "Bind":
+                    inner[y["pat"]["local"]] = y
+            v = peel_refs(pushes[-1]["args"][0])
+            src = v.get("local") if v.get("k") == "Path" else None
+            if src is None and v.get("k") == "MethodCall":
+                src = peel_refs(v["recv"]).get("local")
+            if src is None:
+                res.undecided("%s : pushed-value" % key, "`%s` (fail closed)" % r.e(v)[:40], fn_loc(fn, pushes[-1].get("ln")))
+            elif src not in inner:
+                res.ok()        # a buffer that lives across the iterations and grows in each of them
+            else:
+                # a fresh buffer per iteration: what is it started from?
+                uses = [y for y in walk(body) if y.get("k") == "MethodCall" and y["name"] in ("push_str", "extend", "clone_from") and peel_refs(y["recv"]).get("local") == src] + [inner[src].get("init")]
+                fixed = [z for u in uses if u is not None for z in walk(u) if z.get("k") == "Index" and peel_refs(z["i"]).get("k") == "Lit" and "Vec<" in (c.ty(peel_refs(z["e"]).get("t")) or c.ty(peel_refs(z["e"]).get("at")) or "")]
+                prev = [z for u in uses if u is not None for z in walk(u) if z.get("k") == "MethodCall" and z["name"] in ("last", "last_mut")]
+                if fixed and not prev:
+                    res.violate("%s : extension-from-fixed-item" % key, "each longer n-gram is built from `%s` plus one word: the words between the shortest n-gram and the current word are left out (range (1, 3): `a c` instead of `a b c`)" % r.e(fixed[0])[:20], fn_loc(fn, fixed[0].get("ln")))
+                elif prev:
+                    res.ok()
+                else:
+                    res.undecided("%s : extension-base" % key, "what a new item is started from was not recognised (fail closed)", fn_loc(fn, pushes[-1].get("ln")))
+        if not found:
+            res.instance("%s : extension loop" % key)
+            res.undecided("%s : extension-loop" % key, "no loop that pushes the longer n-grams (fail closed)", fn_loc(fn))
+    return res.finish(1)
 
 
 def rule_regexfresh(ctx):
@@ -624,7 +736,7 @@ def rule_regexfresh(ctx):
 
 def rules(tier):
     from . import carry, c04
-    return [rule_regexfresh, rule_pipeline, rule_docfreq, rule_window, rule_reindex, rule_lookup, rule_row, rule_tfidf,
+    return [rule_regexfresh, rule_views, rule_ngrams, rule_pipeline, rule_docfreq, rule_window, rule_reindex, rule_lookup, rule_row, rule_tfidf,
             carry.make_clone_rule("R-C17-clone", {CRATE}, 8), carry.make_setter_rule("R-C17-override", {CRATE}, 4),
             c04.make_carry_rule("R-C17-carry", {"CountVectorizerParams"}, 4), c04.make_setter_value_rule("R-C17-setter", {"CountVectorizerParams", "TfIdfVectorizer"}, 6),
             carry.make_accessor_rule("R-C17-accessor", {"linfa_preprocessing"}, 6), carry.make_ctor_rule("R-C17-ctor", {"linfa_preprocessing"}, 2)]
